@@ -294,6 +294,8 @@ class ExprMixin:
             return v.val
         if is_int_like(v):
             return v
+        if isinstance(v, ZKey):
+            return v.e
         raise Unsupported('not an int: %r' % (v,))
 
     def need_int(self, v, node):
